@@ -142,7 +142,7 @@ pub fn run(ctx: &Ctx) {
     ctx.rule("lines (and 2-line programs storing a value in a variable) from the generators of C02, C03, C05, C06, C09-C14 kept as token lists with tagged numeric literals x ordered pairs of the four reading conventions (',' '.', '.' ',', '.' '', ',' ''); oracle (metamorphic): the line rendered for convention A and evaluated under A, and rendered for B and evaluated under B, give bit-identical AST values (same kind, same f64, same unit/currency/zone), and every plain literal evaluated alone under its convention denotes the number the generator started from; non-trivial = the line evaluates, contains a literal with a fraction or a thousands group AND a computation that re-enters the tokenizer or divides (unit conversion, currency conversion, '/')");
     ctx.assume("a literal is always rendered for the convention it is evaluated under; the month-first date form with a comma glued to the day is left out");
     ctx.run_table(&Separators, "regressions", regressions(), false);
-    ctx.run_generated(&Separators, ctx.tier.pick(12_000, 400_000), case_strategy);
+    ctx.run_generated(&Separators, ctx.tier.pick(40_000, 600_000), case_strategy);
 }
 
 pub fn replay(w: &mut Worker, sub: &str, case: &serde_json::Value) -> Option<Verdict> {
